@@ -488,6 +488,24 @@ func checkC14(w *World, st core.Status, r *RunResult) []Violation {
 				add("outcome-mismatch/refused-by-protocol", fmt.Sprintf("the handler refused the request's compression (unimplemented), client got %v", o.Final))
 			}
 		}
+		// 6d. a response that ended cleanly closes cleanly: CloseResponse after
+		// Receive has reported the clean end of the stream has nothing left to fail on
+		if o.FinalSet && o.Final == nil && o.CancelStep < 0 && p.Deadline == 0 {
+			sawEnd := -1
+			for _, op := range all {
+				if (op.Op == "recv") && op.Err != nil && errors.Is(op.Err, io.EOF) {
+					sawEnd = op.End
+				}
+			}
+			for _, op := range all {
+				if op.Op == "closeresp" && sawEnd >= 0 && op.Start > sawEnd {
+					r.Probes["close_after_clean_end_checked"]++
+					if op.Err != nil {
+						add("closeresponse-failed-after-clean-end", fmt.Sprintf("Receive had reported the clean end of the stream, then CloseResponse failed: %v", op.Err))
+					}
+				}
+			}
+		}
 		// 7b. Receives past the end of the stream change nothing: same trailers,
 		// same error metadata
 		if o.TrailerLater != nil && o.FinalSet {
